@@ -37,6 +37,9 @@ pub fn child_recurse(args: &[String]) {
         "err" => l.log_to_stderr(),
         _ => l.log_to_file(flexi_logger::FileSpec::default().directory(&args[2]).basename("rec").suppress_timestamp()),
     };
+    if args.get(4).map(String::as_str) == Some("crlf") {
+        l = l.use_windows_line_ending();
+    }
     let (boxed, handle) = l.build().unwrap();
     let _ = LOGGER.set(boxed);
     let depth: u32 = args.get(3).and_then(|d| d.parse().ok()).unwrap_or(1);
@@ -47,12 +50,12 @@ pub fn child_recurse(args: &[String]) {
 }
 
 /// runs the child with a watchdog; returns (finished, captured stream or file content)
-pub fn run_recurse(ctx_work: &std::path::Path, mode: &str, target: &str, secs: u64, depth: u32) -> (bool, Vec<u8>) {
+pub fn run_recurse(ctx_work: &std::path::Path, mode: &str, target: &str, secs: u64, depth: u32, crlf: bool) -> (bool, Vec<u8>) {
     let dir = ctx_work.join(format!("recurse-{}", std::process::id()));
     let _ = std::fs::remove_dir_all(&dir);
     std::fs::create_dir_all(&dir).unwrap();
     let exe = std::env::current_exe().unwrap();
-    let mut child = std::process::Command::new(exe).arg("child").arg("recurse").arg(mode).arg(target).arg(&dir).arg(depth.to_string())
+    let mut child = std::process::Command::new(exe).arg("child").arg("recurse").arg(mode).arg(target).arg(&dir).arg(depth.to_string()).arg(if crlf { "crlf" } else { "lf" })
         .stdout(std::process::Stdio::piped()).stderr(std::process::Stdio::piped()).spawn().expect("child");
     let t0 = std::time::Instant::now();
     let mut finished = false;
@@ -149,6 +152,17 @@ pub fn gen_c10(tier: &str, seed: u64) -> Vec<Vec<String>> {
         cases.push(vec![format!("CASE std C10 rec{i}"), format!("RECURSE {mode} {target}"), "END".into()]);
         for depth in [2u32, 3, 5] {
             cases.push(vec![format!("CASE std C10 rec{i}d{depth}"), format!("RECURSE {mode} {target} {depth}"), "END".into()]);
+        }
+    }
+    cases
+}
+
+/// C20: the configured line ending also on the recursive path (a log call from within `Display`)
+pub fn gen_c20_recursive(_tier: &str, _seed: u64) -> Vec<Vec<String>> {
+    let mut cases = Vec::new();
+    for (i, (mode, target)) in [("direct", "file"), ("buf:100", "file"), ("async:5:100", "file")].iter().enumerate() {
+        for depth in [1u32, 2, 3] {
+            cases.push(vec![format!("CASE std C20 rec{i}d{depth}"), format!("RECURSE {mode} {target} {depth} crlf"), "END".into()]);
         }
     }
     cases
